@@ -126,6 +126,54 @@ type lintResult struct {
 	got  string
 }
 
+// other positions of a placeholder: first element of an array nested in a matrix row value, an
+// include assignment, a `with:` input — "exactly one syntax diagnostic" holds at each of them
+var lintSites = []struct {
+	name, prefix, suffix string
+	line, col            int // position of `$`
+}{
+	{"matrix-nested-array", "on: push\njobs:\n  j:\n    runs-on: ubuntu-latest\n    strategy:\n      matrix:\n        a:\n          - - ${{", "\n            - x\n    steps:\n      - run: echo\n", 8, 15},
+	{"matrix-include-array", "on: push\njobs:\n  j:\n    runs-on: ubuntu-latest\n    strategy:\n      matrix:\n        a: [1]\n        include:\n          - b:\n              - ${{", "\n              - y\n    steps:\n      - run: echo\n", 10, 17},
+	{"with-input", "on: push\njobs:\n  j:\n    runs-on: ubuntu-latest\n    steps:\n      - uses: actions/checkout@v4\n        with:\n          ref: ${{", "\n", 8, 16},
+}
+
+// siteOracle: the count and the position of syntax diagnostics at the other sites
+func siteOracle(l *actionlint.Linter, src string, ir implResult) lintResult {
+	for _, st := range lintSites {
+		errs, err := l.Lint("<stdin>", []byte(st.prefix+src+st.suffix), nil)
+		if err != nil {
+			return lintResult{false, "Linter.Lint failed: " + err.Error(), ""}
+		}
+		var sb strings.Builder
+		n := 0
+		var first *actionlint.Error
+		for _, e := range errs {
+			sb.WriteString(e.Kind + "@" + itoa(e.Line) + ":" + itoa(e.Column) + " " + e.Message + " | ")
+			if c, _ := parseErrClass(e.Message); lexErrClass(e.Message) >= 0 || c >= 0 {
+				n++
+				if first == nil {
+					first = e
+				}
+			}
+		}
+		got := sb.String()
+		if ir.accepted {
+			if n > 0 {
+				return lintResult{false, "accepted text produces a syntax diagnostic at site " + st.name, got}
+			}
+			continue
+		}
+		if n != 1 {
+			return lintResult{false, "rejected text yields " + itoa(n) + " syntax diagnostics instead of exactly one at site " + st.name, got}
+		}
+		wantCol := st.col + 3 + ir.err.Column - 1
+		if first.Message != ir.err.Message || first.Line != st.line || first.Column != wantCol {
+			return lintResult{false, "the syntax diagnostic at site " + st.name + " is not the parser's diagnostic at the offending character (want line " + itoa(st.line) + " column " + itoa(wantCol) + ")", got}
+		}
+	}
+	return lintResult{true, "", ""}
+}
+
 func lintOracle(l *actionlint.Linter, src string, ir implResult) lintResult {
 	errs, err := l.Lint("<stdin>", []byte(lintPrefix+src+"\n"), nil)
 	if err != nil {
